@@ -45,11 +45,19 @@ func (m *Machine) tick() *term.Term {
 
 func init() {
 	reg("time.Now", func(fr *frame, args []Value) Value { return mkTime(fr.m.tick()) })
+	// time.Since/Until read the same clock as time.Now: a harness that overrides time.Now
+	// (virtual time) thereby fixes them too.
+	nowNS := func(fr *frame) *term.Term {
+		if ov, ok := fr.m.overrides["time.Now"]; ok {
+			return timeNS(fr, fr.m.call(fr, fr.curPos, ov, nil))
+		}
+		return fr.m.tick()
+	}
 	reg("time.Since", func(fr *frame, args []Value) Value {
-		return term.Bin(term.OSub, fr.m.tick(), timeNS(fr, args[0]))
+		return term.Bin(term.OSub, nowNS(fr), timeNS(fr, args[0]))
 	})
 	reg("time.Until", func(fr *frame, args []Value) Value {
-		return term.Bin(term.OSub, timeNS(fr, args[0]), fr.m.tick())
+		return term.Bin(term.OSub, timeNS(fr, args[0]), nowNS(fr))
 	})
 	reg("time.Unix", func(fr *frame, args []Value) Value {
 		sec, ns := args[0].(*term.Term), args[1].(*term.Term)
